@@ -43,6 +43,9 @@ CLAIMED = {
  'C08': ('other', 'interpolation identities on the real refined-sampling and sampler code decided by z3 (rational-function cross-multiplication; low() stubbed per explored step)',
          'Bounded symbolic checking. For every enumerated method/scheme/grid (symbolic horizon) with refine = degree+2: sub-sampling identities between refined, integrator and control grids (times and values); refined times equally spaced; (d+1)-th finite difference of the in-step samples vanishes (one polynomial of degree <= d per step); extrapolated end value == the scheme\'s propagated end state (also the final entry); exact differentiation stencil at the step start == ODE right-hand side (explicit schemes); collocation polynomial through the helper states (rational tables); sampler on explored steps == that polynomial (values at d+1 times + vanishing (d+1)-th time derivative) - all for all real decision vectors/parameters with uninterpreted right-hand sides.',
          'rockit.stage.low stubbed by the explored step index (path condition = t in that step). Numeric horizons and irrational collocation tables are outside the exact identities (rounded power-basis constants).', '3/C08'),
+ 'C16': ('other', 'ocp.der(e) lowered to SX and proven equal by z3 to an independent AST total derivative, right-hand sides uninterpreted',
+         'Bounded symbolic checking. For every enumerated/generated ODE (uninterpreted markers in f) and polynomial expression e of states, time, parameters and global variables (scalar and vector valued): der(e) == d_t e + grad_x e . f for all values of (x,u,p,v,t) and all right-hand sides of the shape; order-k controls: der^j(u) is chain member j, der^(k+1)(u) raises; der of a control-dependent expression raises.',
+         'Reference differentiates the AST of e (so e is polynomial/rational); markers stand for f only.', '3/C16'),
 }
 NA = {p: 'check not built yet in this round (see DESIGN.md section 3 for the plan)' for p in
       ['C02','C03','C04','C05','C06','C07','C08','C09','C10','C11','C12','C13','C14','C15','C16','C17','C18','C19']}
